@@ -314,13 +314,17 @@ def remove_unused_imports(source: str, preserve: Collection[str] = frozenset()) 
 
 def fix_too_many_blank_lines(source: str) -> str:
     # At module level, remove all above 2 blank lines
-    source = re.sub(r"(\n\s*){3,}\n", "\n" * 3, source)
+    new_source = re.sub(r"(\n\s*){3,}\n", "\n" * 3, source)
 
     # At EOF, remove all newlines and whitespace above 1
-    source = re.sub(r"(\n\s*){2,}\Z", "\n", source)
+    new_source = re.sub(r"(\n\s*){2,}\Z", "\n", new_source)
 
     # At non-module (any indented) level, remove all newlines above 1, preserve indent
-    source = re.sub(r"(\n\s*){2,}(\n\s+)(?=[^\n\s])", r"\n\g<2>", source)
+    new_source = re.sub(r"(\n\s*){2,}(\n\s+)(?=[^\n\s])", r"\n\g<2>", new_source)
+
+    # The blank lines of a multi-line string are part of its value
+    if core.keeps_syntax_tree(source, new_source):
+        return new_source
 
     return source
 
